@@ -1459,17 +1459,26 @@ class Intervals:
         la = ta if ta is not None else self.term_of(st, oa)
         lb = tb if tb is not None else self.term_of(st, ob)
         if la is not None and lb is not None and la != lb:
-            if op == "Lt":
-                st.rel.add((la, "<", lb))
-            elif op == "Le":
-                st.rel.add((la, "<=", lb))
-            elif op == "Gt":
-                st.rel.add((lb, "<", la))
-            elif op == "Ge":
-                st.rel.add((lb, "<=", la))
-            elif op == "Eq":
-                st.rel.add((la, "<=", lb))
-                st.rel.add((lb, "<=", la))
+            # the fact is recorded for the canonical terms and for the locals currently known to hold the same values: which
+            # term is canonical can differ from one fixpoint round to the next (an alias dropped at a join), and a relation
+            # keyed only by the canonical terms would then be lost in the intersection
+            ea = [la] + sorted(k for k, v in st.alias.items() if v == la)[:3]
+            eb = [lb] + sorted(k for k, v in st.alias.items() if v == lb)[:3]
+            for xa in ea:
+                for xb in eb:
+                    if xa == xb:
+                        continue
+                    if op == "Lt":
+                        st.rel.add((xa, "<", xb))
+                    elif op == "Le":
+                        st.rel.add((xa, "<=", xb))
+                    elif op == "Gt":
+                        st.rel.add((xb, "<", xa))
+                    elif op == "Ge":
+                        st.rel.add((xb, "<=", xa))
+                    elif op == "Eq":
+                        st.rel.add((xa, "<=", xb))
+                        st.rel.add((xb, "<=", xa))
         return True
 
     # ---- calls --------------------------------------------------------------------------------
